@@ -348,6 +348,10 @@ P("C10",
   assumptions=["the honest seeder is generated compatible with the client's encryption policy (the property assumes a reachable source)"],
   units=[
    U("c10.download", "c10", "TestDownload", "download completes with correct files whenever an honest full source is reachable", Q(320, 8, 900), T(12000, 16), min_nontrivial_frac=0.5, shrinktime="40s"),
+   U("c10.wsretry", "c10", "TestWSRetry",
+     "the only source is an honest web seed whose first answer fails (503 / 404 / body cut short): after the client's one-minute retry period the download finishes "
+     "(one case takes a little over a minute by construction: 2 cases in the quick tier, 32 in the thorough tier, all in parallel)",
+     Q(2, 2, 400), T(32, 16, 900), shrinktime="1s"),
   ])
 
 P("C01",
